@@ -161,6 +161,29 @@ def q2r(q):
                      [2 * (x * z - s * y), 2 * (y * z + s * x), 1 - 2 * (x * x + y * y)]])
 
 
+def q_of_R(R):
+    """unit quaternion (scalar first, s >= 0) of a rotation matrix: Shepperd's method, pivoting on the largest of the four
+    squared components so that no small number is ever divided by"""
+    R = np.asarray(R, dtype=float)
+    t = np.trace(R)
+    d = [t, R[0, 0], R[1, 1], R[2, 2]]
+    i = int(np.argmax(d))
+    if i == 0:
+        s = math.sqrt(max(0.0, 1 + t)) / 2
+        q = np.array([s, (R[2, 1] - R[1, 2]) / (4 * s), (R[0, 2] - R[2, 0]) / (4 * s), (R[1, 0] - R[0, 1]) / (4 * s)])
+    else:
+        j, k, l = [(1, 2, 3), (2, 3, 1), (3, 1, 2)][i - 1]
+        a, b_, c_ = j - 1, k - 1, l - 1
+        x = math.sqrt(max(0.0, 1 + R[a, a] - R[b_, b_] - R[c_, c_])) / 2
+        q = np.zeros(4)
+        q[j] = x
+        q[0] = (R[c_, b_] - R[b_, c_]) / (4 * x)
+        q[k] = (R[b_, a] + R[a, b_]) / (4 * x)
+        q[l] = (R[a, c_] + R[c_, a]) / (4 * x)
+    q = q / np.linalg.norm(q)
+    return q if q[0] >= 0 else -q
+
+
 def q_of(spec):
     k = unit(spec["axis"])
     a = spec["angle"]
